@@ -336,7 +336,7 @@ fn run_bw<V: Val>(c: &Case, out: &mut String) {
     if c.ops.contains('X') { writeln!(out, "IMGHEX {}", hex(&img)).unwrap(); }
     writeln!(out, "STATS {} {} {} {}", pma.num_states(), pma.verif_num_slots(), pma.heap_bytes(), V::OUT_SIZE).unwrap();
     if c.ops.contains('T') { bw_table(&pma, c.kind, out); }
-    if c.ops.contains('S') { bw_searches(&pma, c, "", out); }
+    if c.ops.contains('S') { bw_searches(&pma, c, "", out); if !c.hays.is_empty() && !c.ops.contains('N') { bw_api(&pma, c, out); } }
     if c.ops.contains('K') {
         let h: &[u8] = b"a";
         let p = |r: std::thread::Result<()>| if r.is_err() { "panic" } else { "ok" };
@@ -425,6 +425,49 @@ fn obs_all_bw<V: Val>(pma: &DoubleArrayAhoCorasick<V>, kind: u8, h: &[u8]) -> St
         for m in pma.leftmost_find_iter(h) { write!(s, "l{},{},{};", m.start(), m.end(), m.value().show()).unwrap(); }
     }
     s
+}
+
+// API surface beyond single searches: Clone, partially consumed iterators, interleaved iterators; the
+// automaton must come out unchanged (same bytes) and every search must answer as it did before
+fn bw_api<V: Val>(pma: &DoubleArrayAhoCorasick<V>, c: &Case, out: &mut String) {
+    let r = catch_unwind(AssertUnwindSafe(|| {
+        let img = pma.serialize();
+        let cl = pma.clone();
+        let clone_ok = V::bw_eq(pma, &cl) && cl.serialize() == img;
+        let (mut reuse_ok, mut inter_ok) = (true, true);
+        let firsts: Vec<String> = c.hays.iter().map(|h| obs_all_bw(pma, c.kind, h)).collect();
+        for (j, h) in c.hays.iter().enumerate() {
+            if c.kind == 0 {
+                let mut a = pma.find_overlapping_iter(h); let _ = a.next(); let _ = a.next(); drop(a);
+                let mut b = pma.find_iter(h); let _ = b.next(); drop(b);
+                let mut d = pma.find_overlapping_no_suffix_iter(h); let _ = d.next(); drop(d);
+            } else { let mut a = pma.leftmost_find_iter(h); let _ = a.next(); drop(a); }
+            reuse_ok &= obs_all_bw(pma, c.kind, h) == firsts[j] && obs_all_bw(&cl, c.kind, h) == firsts[j];
+            let h2 = &c.hays[(j + 1) % c.hays.len()];
+            let show = |m: daachorse::Match<V>| (m.end().wrapping_sub(m.end() - m.start()), m.end(), m.value().show());
+            if c.kind == 0 {
+                let sep1: Vec<_> = pma.find_overlapping_iter(h).map(show).collect();
+                let sep2: Vec<_> = pma.find_iter(h2).map(show).collect();
+                let (mut i1, mut i2) = (pma.find_overlapping_iter(h), pma.find_iter(h2));
+                let (mut g1, mut g2) = (vec![], vec![]);
+                loop { let x = i1.next(); let y = i2.next(); if x.is_none() && y.is_none() { break; } if let Some(m) = x { g1.push(show(m)); } if let Some(m) = y { g2.push(show(m)); } }
+                inter_ok &= g1 == sep1 && g2 == sep2;
+            } else {
+                let sep1: Vec<_> = pma.leftmost_find_iter(h).map(show).collect();
+                let sep2: Vec<_> = pma.leftmost_find_iter(h2).map(show).collect();
+                let (mut i1, mut i2) = (pma.leftmost_find_iter(h), pma.leftmost_find_iter(h2));
+                let (mut g1, mut g2) = (vec![], vec![]);
+                loop { let x = i1.next(); let y = i2.next(); if x.is_none() && y.is_none() { break; } if let Some(m) = x { g1.push(show(m)); } if let Some(m) = y { g2.push(show(m)); } }
+                inter_ok &= g1 == sep1 && g2 == sep2;
+            }
+        }
+        let unchanged = pma.serialize() == img;
+        (clone_ok, reuse_ok, inter_ok, unchanged)
+    }));
+    match r {
+        Ok((a, b, d, e)) => writeln!(out, "APIX {} {} {} {}", u8::from(a), u8::from(b), u8::from(d), u8::from(e)).unwrap(),
+        Err(_) => writeln!(out, "APIX panic").unwrap(),
+    }
 }
 
 // ---------------------------------------------------------------- char-wise
@@ -545,7 +588,7 @@ fn run_cw<V: Val>(c: &Case, out: &mut String) {
     if c.ops.contains('X') { writeln!(out, "IMGHEX {}", hex(&img)).unwrap(); }
     writeln!(out, "STATS {} {} {} {}", pma.num_states(), pma.num_elements(), pma.heap_bytes(), V::OUT_SIZE).unwrap();
     if c.ops.contains('T') { cw_table(&pma, c.kind, &pats, out); }
-    if c.ops.contains('S') { cw_searches(&pma, c, "", out); }
+    if c.ops.contains('S') { cw_searches(&pma, c, "", out); if !c.hays.is_empty() && !c.ops.contains('N') { cw_api(&pma, c, out); } }
     if c.ops.contains('K') {
         let h = "a";
         let p = |r: std::thread::Result<()>| if r.is_err() { "panic" } else { "ok" };
@@ -617,6 +660,50 @@ fn run_cw<V: Val>(c: &Case, out: &mut String) {
         });
         let after: Vec<String> = hays.iter().map(|h| obs_all_cw(&pma, c.kind, h)).collect();
         writeln!(out, "THREADS {} {}", u8::from(ok), u8::from(after == expect && pma.serialize() == img)).unwrap();
+    }
+}
+
+// API surface beyond single searches: Clone, partially consumed iterators, interleaved iterators; the
+// automaton must come out unchanged (same bytes) and every search must answer as it did before
+fn cw_api<V: Val>(pma: &CharwiseDoubleArrayAhoCorasick<V>, c: &Case, out: &mut String) {
+    let r = catch_unwind(AssertUnwindSafe(|| {
+        let img = pma.serialize();
+        let cl = pma.clone();
+        let clone_ok = V::cw_eq(pma, &cl) && cl.serialize() == img;
+        let (mut reuse_ok, mut inter_ok) = (true, true);
+        let hays: Vec<&str> = c.hays.iter().map(|h| std::str::from_utf8(h).unwrap()).collect();
+        let firsts: Vec<String> = hays.iter().map(|h| obs_all_cw(pma, c.kind, h)).collect();
+        for (j, h) in hays.iter().copied().enumerate() {
+            if c.kind == 0 {
+                let mut a = pma.find_overlapping_iter(h); let _ = a.next(); let _ = a.next(); drop(a);
+                let mut b = pma.find_iter(h); let _ = b.next(); drop(b);
+                let mut d = pma.find_overlapping_no_suffix_iter(h); let _ = d.next(); drop(d);
+            } else { let mut a = pma.leftmost_find_iter(h); let _ = a.next(); drop(a); }
+            reuse_ok &= obs_all_cw(pma, c.kind, h) == firsts[j] && obs_all_cw(&cl, c.kind, h) == firsts[j];
+            let h2 = hays[(j + 1) % hays.len()];
+            let show = |m: daachorse::Match<V>| (m.end().wrapping_sub(m.end() - m.start()), m.end(), m.value().show());
+            if c.kind == 0 {
+                let sep1: Vec<_> = pma.find_overlapping_iter(h).map(show).collect();
+                let sep2: Vec<_> = pma.find_iter(h2).map(show).collect();
+                let (mut i1, mut i2) = (pma.find_overlapping_iter(h), pma.find_iter(h2));
+                let (mut g1, mut g2) = (vec![], vec![]);
+                loop { let x = i1.next(); let y = i2.next(); if x.is_none() && y.is_none() { break; } if let Some(m) = x { g1.push(show(m)); } if let Some(m) = y { g2.push(show(m)); } }
+                inter_ok &= g1 == sep1 && g2 == sep2;
+            } else {
+                let sep1: Vec<_> = pma.leftmost_find_iter(h).map(show).collect();
+                let sep2: Vec<_> = pma.leftmost_find_iter(h2).map(show).collect();
+                let (mut i1, mut i2) = (pma.leftmost_find_iter(h), pma.leftmost_find_iter(h2));
+                let (mut g1, mut g2) = (vec![], vec![]);
+                loop { let x = i1.next(); let y = i2.next(); if x.is_none() && y.is_none() { break; } if let Some(m) = x { g1.push(show(m)); } if let Some(m) = y { g2.push(show(m)); } }
+                inter_ok &= g1 == sep1 && g2 == sep2;
+            }
+        }
+        let unchanged = pma.serialize() == img;
+        (clone_ok, reuse_ok, inter_ok, unchanged)
+    }));
+    match r {
+        Ok((a, b, d, e)) => writeln!(out, "APIX {} {} {} {}", u8::from(a), u8::from(b), u8::from(d), u8::from(e)).unwrap(),
+        Err(_) => writeln!(out, "APIX panic").unwrap(),
     }
 }
 
